@@ -206,6 +206,9 @@ def run_cycle(arg):
         p.close()
 
 
+from escconf import escape_conformance
+
+
 def names_for(ck):
     rnd = random.Random(ck.seed)
     names = []
@@ -228,6 +231,19 @@ def names_for(ck):
 def main(argv):
     ck = Check('C04', argv)
     names = names_for(ck)
+    # the writers' escape functions against their design model; inputs on
+    # which the code is no longer the modelled algorithm go through the real
+    # build tool in every role (drift-directed names)
+    drift = escape_conformance(ck)
+    dnames = []
+    for fn, w, out in sorted(drift, key=lambda d: (len(d[1]), d[1])):
+        n = 'xx' + w + 'y' if not w.startswith('xx') else w
+        for cand in (n, w):
+            if cand and cand not in ('.', '..') and '/' not in cand and \
+                    '\\' not in cand and '\t' not in cand and \
+                    not cand.startswith('~') and cand not in names + dnames:
+                dnames.append(cand)
+    names += dnames[:60]
     refm = pmap(reference_make, names)
     refn = pmap(reference_ninja, names)
     scope = {('make', n): a for n, a in zip(names, refm)}
